@@ -38,9 +38,10 @@ pub fn scrutinee_types(tier: Tier) -> Vec<Ty> {
         Ty::Adt("Shape"),
         opt(Ty::Adt("Color")),
         Ty::Tuple(vec![Ty::Adt("Color"), opt(Ty::Bool)]),
+        Ty::Pair(Rc::new(Ty::Int), Rc::new(Ty::Bool)),
     ];
     if tier == Tier::Thorough {
-        v.extend([Ty::Adt("Rec"), Ty::Adt("Tree"), opt(opt(Ty::Bool)), Ty::List(Rc::new(Ty::Int))]);
+        v.extend([Ty::Adt("Rec"), Ty::Adt("Tree"), opt(opt(Ty::Bool)), Ty::List(Rc::new(Ty::Int)), Ty::Pair(Rc::new(opt(Ty::Bool)), Rc::new(Ty::Int)), Ty::List(Rc::new(Ty::Pair(Rc::new(Ty::Bool), Rc::new(Ty::Bool)))), Ty::Tuple(vec![Ty::Int, Ty::Pair(Rc::new(Ty::Bool), Rc::new(Ty::Bool))])]);
     }
     v
 }
@@ -92,6 +93,18 @@ fn pats(ty: &Ty, depth: usize, reduced: bool) -> Vec<Pat> {
                 rows = rows.into_iter().flat_map(|pre| sub.iter().map(move |p| [pre.as_slice(), &[p.clone()]].concat())).collect();
             }
             out.extend(rows.into_iter().map(Pat::Tuple));
+        }
+        Ty::Pair(a, b) if depth > 0 => {
+            for p in pats(a, depth - 1, true) {
+                for q in pats(b, depth - 1, true) {
+                    out.push(Pat::Pair(Box::new(p.clone()), Box::new(q)));
+                }
+            }
+            if !reduced {
+                // one component bound, the other refutable
+                out.push(Pat::Pair(Box::new(Pat::Var("k".into())), Box::new(pats(b, 0, true).last().cloned().unwrap_or(Pat::Discard))));
+                out.push(Pat::Pair(Box::new(pats(a, 0, true).last().cloned().unwrap_or(Pat::Discard)), Box::new(Pat::Var("k".into()))));
+            }
         }
         Ty::List(e) if depth > 0 => {
             let sub = pats(e, depth - 1, true);
@@ -173,6 +186,10 @@ pub fn value_universe(ty: &Ty, depth: usize) -> Vec<Val> {
                 rows = rows.into_iter().flat_map(|pre| u.iter().map(move |x| [pre.as_slice(), &[x.clone()]].concat())).collect();
             }
             rows.into_iter().map(Val::Tuple).collect()
+        }
+        Ty::Pair(a, b) => {
+            let (ua, ub) = (value_universe(a, depth.saturating_sub(1)), value_universe(b, depth.saturating_sub(1)));
+            ua.iter().flat_map(|x| ub.iter().map(move |y| Val::Pair(Box::new(x.clone()), Box::new(y.clone())))).collect()
         }
         Ty::Opt(_) | Ty::Adt(_) => {
             let mut out = vec![];
@@ -370,7 +387,7 @@ fn check_candidate(c: &Candidate, base: &Proj, l: &mut Local) {
 /// set kept small (element patterns are wildcards only) so that *longer* clause sequences
 /// are affordable: how rows with a list-with-tail pattern are distributed over the
 /// exact-length cases of a column only matters once other columns and >= 4 clauses interact.
-fn list_column_family(tier: Tier) -> Vec<Candidate> {
+fn list_column_family(tier: Tier) -> (Ty, Vec<Pat>, Vec<Vec<u16>>) {
     let ty = Ty::Tuple(vec![Ty::List(Rc::new(Ty::Bool)), Ty::Int]);
     let w = || Pat::Discard;
     let lists = vec![w(), Pat::List(vec![], None), Pat::List(vec![w()], None), Pat::List(vec![w()], Some(None)), Pat::List(vec![w(), w()], None), Pat::List(vec![w(), w()], Some(None))];
@@ -381,63 +398,84 @@ fn list_column_family(tier: Tier) -> Vec<Candidate> {
             ps.push(Pat::Tuple(vec![l.clone(), i.clone()]));
         }
     }
-    let n = ps.len();
-    let mut out = vec![];
+    let n = ps.len() as u16;
+    let mut out: Vec<Vec<u16>> = vec![];
     let full_len = if tier == Tier::Quick { 3 } else { 4 };
-    let mut seqs: Vec<Vec<usize>> = vec![vec![]];
+    let mut seqs: Vec<Vec<u16>> = vec![vec![]];
     for _ in 0..full_len {
         seqs = seqs.iter().flat_map(|s| (0..n).map(move |k| [s.as_slice(), &[k]].concat())).collect();
-        out.extend(seqs.iter().map(|s| Candidate { ty: ty.clone(), clauses: s.iter().map(|k| ps[*k].clone()).collect() }));
+        out.extend(seqs.iter().cloned());
     }
     // longer sequences of the common shape: a first clause that is refutable in the list
     // column, a catch-all last clause, everything in between
-    let firsts: Vec<usize> = (0..n).filter(|k| matches!(&ps[*k], Pat::Tuple(xs) if !matches!(xs[0], Pat::Discard))).collect();
+    let firsts: Vec<u16> = (0..n).filter(|k| matches!(&ps[*k as usize], Pat::Tuple(xs) if !matches!(xs[0], Pat::Discard))).collect();
     let middle_len = if tier == Tier::Quick { 3 } else { 4 };
-    let mut mids: Vec<Vec<usize>> = vec![vec![]];
+    let mut mids: Vec<Vec<u16>> = vec![vec![]];
     for _ in 0..middle_len {
         mids = mids.iter().flat_map(|s| (1..n).map(move |k| [s.as_slice(), &[k]].concat())).collect();
     }
     // quick tier: only `[]` first (the column the tree switches on first)
-    let firsts: Vec<usize> = if tier == Tier::Quick { firsts.into_iter().filter(|k| matches!(&ps[*k], Pat::Tuple(xs) if matches!(&xs[0], Pat::List(e, None) if e.is_empty()))).collect() } else { firsts };
+    let firsts: Vec<u16> = if tier == Tier::Quick { firsts.into_iter().filter(|k| matches!(&ps[*k as usize], Pat::Tuple(xs) if matches!(&xs[0], Pat::List(e, None) if e.is_empty()))).collect() } else { firsts };
     for f in &firsts {
         for m in &mids {
             let mut idx = vec![*f];
             idx.extend(m);
             idx.push(0);
-            out.push(Candidate { ty: ty.clone(), clauses: idx.iter().map(|k| ps[*k].clone()).collect() });
+            out.push(idx);
         }
     }
-    out
+    (ty, ps, out)
 }
 
-pub fn candidates(tier: Tier) -> Vec<Candidate> {
-    let mut out = list_column_family(tier);
-    for ty in scrutinee_types(tier) {
-        let ps = pats(&ty, 2, false);
-        let small = ps.len() <= 8;
+/// Per-worker pattern tables (they hold `Rc`s); the candidate list itself is the compact,
+/// shareable `CandIx` list - materialising every candidate in every worker cost 3 GB each in
+/// the thorough tier.
+pub struct Tables {
+    fams: Vec<(Ty, Vec<Pat>, bool)>,
+}
+
+/// (family, clause pattern indices)
+pub type CandIx = (u16, Vec<u16>);
+
+impl Tables {
+    pub fn new(tier: Tier) -> Tables {
+        let (ty, ps, _) = list_column_family(tier);
+        let mut fams = vec![(ty, ps, false)];
+        for ty in scrutinee_types(tier) {
+            let ps = pats(&ty, 2, false);
+            fams.push((ty, ps, true));
+        }
+        Tables { fams }
+    }
+    pub fn materialise(&self, ix: &CandIx) -> Candidate {
+        let (ty, ps, rename_vars) = &self.fams[ix.0 as usize];
+        let mut n = 0;
+        Candidate { ty: ty.clone(), clauses: ix.1.iter().map(|k| if *rename_vars { rename(&ps[*k as usize], &mut n) } else { ps[*k as usize].clone() }).collect() }
+    }
+}
+
+pub fn candidate_index(tier: Tier) -> Vec<CandIx> {
+    let mut out: Vec<CandIx> = list_column_family(tier).2.into_iter().map(|s| (0u16, s)).collect();
+    for (f, ty) in scrutinee_types(tier).into_iter().enumerate() {
+        let np = pats(&ty, 2, false).len();
+        let small = np <= 8;
         let max_len = match (tier, small) {
             (Tier::Quick, true) => 4,
             (Tier::Quick, false) => 3,
             (Tier::Thorough, true) => 5,
             (Tier::Thorough, false) => 4,
         };
-        let mut seqs: Vec<Vec<usize>> = vec![vec![]];
+        let mut seqs: Vec<Vec<u16>> = vec![vec![]];
         for _ in 0..max_len {
             let mut next = vec![];
             for s in &seqs {
-                if s.len() + 1 > max_len {
-                    continue;
-                }
-                for k in 0..ps.len() {
+                for k in 0..np as u16 {
                     let mut t = s.clone();
                     t.push(k);
                     next.push(t);
                 }
             }
-            for s in &next {
-                let mut n = 0;
-                out.push(Candidate { ty: ty.clone(), clauses: s.iter().map(|k| rename(&ps[*k], &mut n)).collect() });
-            }
+            out.extend(next.iter().map(|s| ((f + 1) as u16, s.clone())));
             seqs = next;
             // keep the product in check for the large pattern sets in the thorough tier
             if seqs.len() > 400_000 {
@@ -452,10 +490,12 @@ pub fn run(tier: Tier, replay: Option<String>) -> i32 {
     if let Some(p) = replay {
         let doc: serde_json::Value = serde_json::from_str(&std::fs::read_to_string(&p).expect("read")).expect("json");
         let src = doc["case"]["source"].as_str().unwrap_or("");
-        let all = candidates(Tier::Thorough);
         let base = Proj::new();
-        for c in all.iter().chain(candidates(Tier::Quick).iter()) {
-            if source_of(c).0 == src {
+        let n_clauses = src.split("when x is {").nth(1).map(|t| t.matches(" -> ").count()).unwrap_or(0);
+        let (tt, tq) = (Tables::new(Tier::Thorough), Tables::new(Tier::Quick));
+        let all: Vec<Candidate> = candidate_index(Tier::Thorough).iter().map(|ix| (ix, &tt)).chain(candidate_index(Tier::Quick).iter().map(|ix| (ix, &tq))).filter(|(ix, _)| n_clauses == ix.1.len()).map(|(ix, t)| t.materialise(ix)).filter(|c| source_of(c).0 == src).take(1).collect();
+        for c in all.iter() {
+            {
                 let mut l = Local::default();
                 check_candidate(c, &base, &mut l);
                 for v in &l.violations {
@@ -471,17 +511,19 @@ pub fn run(tier: Tier, replay: Option<String>) -> i32 {
         return 2;
     }
     let mut run = Run::new("C07", tier);
-    let (n_cands, per_type) = {
-        let cands = candidates(tier);
+    let index = candidate_index(tier);
+    let n_cands = index.len();
+    let per_type = {
+        let t = Tables::new(tier);
         let mut per_type: BTreeMap<String, u64> = BTreeMap::new();
-        for c in &cands {
-            *per_type.entry(show_ty(&c.ty)).or_default() += 1;
+        for c in &index {
+            *per_type.entry(show_ty(&t.fams[c.0 as usize].0)).or_default() += 1;
         }
-        (cands.len(), per_type)
+        per_type
     };
     let cap = Some(Duration::from_secs(if tier == Tier::Quick { 50 } else { 1700 }));
     // (candidates hold Rc-based types: every worker enumerates its own copy of the same list)
-    let out = par_indices(n_cands as u64, 8, cap, |_| (Proj::new(), candidates(tier), Local::default()), |(base, cands, l), i| check_candidate(&cands[i as usize], base, l), |(_, _, l)| l);
+    let out = par_indices(n_cands as u64, 8, cap, |_| (Proj::new(), Tables::new(tier), Local::default()), |(base, tabs, l), i| check_candidate(&tabs.materialise(&index[i as usize]), base, l), |(_, _, l)| l);
     let mut t = Local::default();
     for l in out.results {
         t.candidates += l.candidates;
@@ -516,7 +558,7 @@ pub fn run(tier: Tier, replay: Option<String>) -> i32 {
     run.set("transitions", t.evaluations + t.candidates);
     run.set("traces_validated_against_impl", t.candidates);
     run.set("distinct_nontrivial", t.accepted.min(t.redundant + t.not_exhaustive));
-    run.set("rule", "for each scrutinee type (Bool, enum, Option, tuples, List<Bool>, Int, multi-constructor ADT with positional and labelled fields, ...) every sequence of <= 2 (3 for small pattern sets; +1 thorough) clauses over all patterns of depth <= 2 (constructors with every sub-pattern combination and `..`, literals, list patterns with 0-2 elements with and without tail, variables, discards, `as`); the real checker's verdict is compared with a brute-force matcher over a value universe complete for these patterns (lists up to length 3, one fresh integer); accepted matches are compiled and run on every value; distinct_nontrivial = min(accepted, rejected)");
+    run.set("rule", "for each scrutinee type (Bool, enum, Option, tuples, pairs, List<Bool>, Int, multi-constructor ADT with positional and labelled fields, ...) every sequence of <= 2 (3 for small pattern sets; +1 thorough) clauses over all patterns of depth <= 2 (constructors with every sub-pattern combination and `..`, literals, list patterns with 0-2 elements with and without tail, variables, discards, `as`); the real checker's verdict is compared with a brute-force matcher over a value universe complete for these patterns (lists up to length 3, one fresh integer); accepted matches are compiled and run on every value; distinct_nontrivial = min(accepted, rejected)");
     run.assume("the value universe (depth 3, lists to length 3, integers {0,1,2}) is complete for the distinguishing power of the enumerated patterns");
     let other: u64 = t.other_errors.values().sum();
     if t.accepted == 0 || t.redundant == 0 || t.not_exhaustive == 0 {
